@@ -721,3 +721,8 @@ Definition py_lower (v : pv) : pr pv :=
   | VStr x => if forallb (fun c => (c <? 128)%N) x then POk (VStr (map lower_cp x)) else PStuck
   | _ => PStuck
   end.
+
+(* type(x) == C / isinstance(x, C) for an object and a class given by name (classes without subclasses in the
+   translated code: the translator checks that) *)
+Definition obj_class_is (v : pv) (c : string) : bool :=
+  match v with VObj n _ => String.eqb n c | _ => false end.
